@@ -31,6 +31,11 @@ void exercise(gr_face *face, const std::vector<uint32_t> &text) {
         for (unsigned q = 0; q < gr_face_n_fref(face) && q < 64; ++q) { const gr_feature_ref *r = gr_face_fref(face, gr_uint16(q)); sink += gr_fref_feature_value(r, fv); gr_fref_set_feature_value(r, gr_uint16(q & 1), fv); }
         gr_feature_val *cl = gr_featureval_clone(fv); gr_featureval_destroy(cl); gr_featureval_destroy(fv);
     }
+    {   // a feature-value object that belongs to no face yet (Font.h: gr_featureval_clone(NULL) gives an empty one)
+        gr_feature_val *fv = gr_featureval_clone(0);
+        for (unsigned q = 0; fv && q < gr_face_n_fref(face) && q < 64; ++q) { const gr_feature_ref *r = gr_face_fref(face, gr_uint16(q)); gr_fref_set_feature_value(r, gr_uint16(gr_fref_n_values(r) ? gr_fref_value(r, 0) : 0), fv); sink += gr_fref_feature_value(r, fv); }
+        if (fv) gr_featureval_destroy(fv);
+    }
     gr_font *gf = gr_make_font(12.0f, face);
     for (int dir = 0; dir < 4; ++dir) {
         GRV_WATCHDOG;
